@@ -11,6 +11,8 @@ mokapot.dataset.update_labels, the counter brew applies to the learned scores, m
 (brew passes test_fdr): checked directly on generated files and through brew runs with test_fdr far from 0.01.
 "The best single feature" is the one of the fold with the LARGEST count: the fold-layout cases (build_fold_frames) make the
 folds disagree about it (another feature, the other direction, or only another count) with the weakest fold at any position.
+Feature columns may be integer-typed (build_int_frames): small integers and integers beyond 2**24 that float32 cannot
+separate; for those every oracle count compares the integers exactly (oriented()), never through a floating-point type.
 """
 import json
 import logging
@@ -101,9 +103,20 @@ ALL_ESTIMATORS = dict(ESTIMATORS, **{"lossy-memo-proba": LossyMemoProba})
 
 
 # ------------------------------------------------------------------------------------------------ q-value oracle
+def oriented(scores, desc=True):
+    """the scores on the scale in which higher is better. Integer-typed scores stay integers (int64: compared exactly,
+    never through a floating-point type; the generated integer features are below 2**52 in magnitude), everything else
+    is float64."""
+    a = np.asarray(scores).ravel()
+    if a.dtype.kind in "iu":
+        a = a.astype(np.int64)
+        return a if desc else -a
+    return np.asarray(a, dtype=float) * (1.0 if desc else -1.0)
+
+
 def qvalues(scores, is_target, desc=True):
     """q(s) = min over thresholds t no better than s of (decoys at least as good as t + 1) / (targets ...), <= 1."""
-    s = np.asarray(scores, dtype=float).ravel() * (1.0 if desc else -1.0)
+    s = oriented(scores, desc)
     tgt = np.asarray(is_target, dtype=bool)
     out, run = {}, Fraction(1)
     for t in sorted(set(s.tolist())):
@@ -111,7 +124,7 @@ def qvalues(scores, is_target, desc=True):
         nd = int((~tgt & (s >= t)).sum())
         run = min(run, Fraction(nd + 1, nt) if nt else Fraction(1))
         out[t] = run
-    return [out[float(v)] for v in s]
+    return [out[v] for v in s.tolist()]
 
 
 def accept_cut(scores, is_target, fdr, desc=True):
@@ -120,8 +133,8 @@ def accept_cut(scores, is_target, fdr, desc=True):
     least as good as the WORST such value v (the cut, on the scale in which higher is better; None: nothing accepted).
     Integer arithmetic only ((D + 1) * den <= num * T with fdr = num/den exactly as the float says); q-values never
     exceed 1, so fdr >= 1 accepts everything. Same function of the inputs as counting qvalues() <= fdr, without the
-    quadratic cost."""
-    s = np.asarray(scores, dtype=float).ravel() * (1.0 if desc else -1.0)
+    quadratic cost. Integer-typed scores are sorted and compared as integers (oriented())."""
+    s = oriented(scores, desc)
     tgt = np.asarray(is_target, dtype=bool).ravel()
     if not len(s):
         return None, 0
@@ -147,7 +160,7 @@ def n_accepted(scores, is_target, fdr, desc=True):
 
 def expected_labels(scores, is_target, fdr, desc=True):
     """+1 genuine targets with q <= fdr, 0 the other targets, -1 decoys"""
-    s = np.asarray(scores, dtype=float).ravel() * (1.0 if desc else -1.0)
+    s = oriented(scores, desc)
     tgt = np.asarray(is_target, dtype=bool).ravel()
     cut = accept_cut(scores, is_target, fdr, desc)[0]
     lab = np.where(tgt, 0, -1)
@@ -238,7 +251,86 @@ def build_fold_frames(c):
     return frames
 
 
+INT_DTYPES = {"int32": 30, "uint32": 31, "int64": 48, "uint64": 48}      # largest power of two used as the base
+
+
+def build_int_frames(c):
+    """c['int_feat'] = dict(dtype, log2 (None: small values), mult, negate): f0 is an INTEGER-typed column (Parquet keeps the
+    dtype, text files are parsed back to int64) and the best single feature; one row per (spectrum, k), 50% targets, 65% of
+    them good. A latent score ~ N(4,1) (good) / N(0,1) ranks the rows; row of rank r gets the r-th smallest of n distinct
+    offsets (one drawn in each of n consecutive windows of width span // n), so f0 is strictly monotone in the latent score.
+    f0 = base + offset with base drawn in [2**log2, 1.5 * 2**log2) and span = max(n, mult * 2**(log2 - 23)) (2**(log2 - 23)
+    is the distance of neighbouring float32 values at the base: mult = 0.5 puts nearly all rows between two neighbouring
+    float32 values, mult = 4 / 32 spread them over about 4 / 32 of them, log2 = 24..26 with span = n makes only neighbours
+    indistinguishable); log2 = None: base 0, span 4n (small integers, exact in every float type). Lower-is-better: the offsets
+    are mirrored (span - 1 - offset) or, signed dtypes with negate, the whole value is negated. f1 ~ N(0,1) and N(8,1) for
+    every fourth good target (a WEAK second feature that accepts something), f2 = row id."""
+    rng = np.random.default_rng(c["data_seed"])
+    pos, neg = ENCODINGS[c["encoding"]]
+    spec = c["int_feat"]
+    frames, rid = [], 0
+    for n_spec in c["n_spec"]:
+        n = n_spec * c["dup"]
+        tgt = rng.random(n) < 0.5
+        good = tgt & (rng.random(n) < 0.65)
+        z = rng.normal(np.where(good, 4.0, 0.0), 1.0)
+        if spec["log2"] is None:
+            base, span = 0, 4 * n
+        else:
+            base = 2 ** spec["log2"] + int(rng.integers(0, 2 ** (spec["log2"] - 1)))
+            span = max(n, int(spec["mult"] * 2 ** (spec["log2"] - 23)))
+        step = span // n
+        offs = np.arange(n, dtype=np.int64) * step + rng.integers(0, step, n)        # distinct, increasing
+        val = offs[np.argsort(np.argsort(z, kind="stable"), kind="stable")]           # higher latent score, higher offset
+        if c["lower"] and spec.get("negate"):
+            f0 = [-(base + int(v)) for v in val]
+        elif c["lower"]:
+            f0 = [base + (span - 1 - int(v)) for v in val]
+        else:
+            f0 = [base + int(v) for v in val]
+        f1 = rng.normal(size=n)
+        strong = np.flatnonzero(good)[::4]
+        f1[strong] = rng.normal(8.0, 1.0, len(strong))
+        ids = np.arange(rid, rid + n)
+        scan = np.repeat(np.arange(n_spec), c["dup"])
+        df = pd.DataFrame(dict(SpecId=ids, Label=[pos if t else neg for t in tgt], ScanNr=scan, ExpMass=100.0 + scan,
+                               f0=np.array(f0, dtype=spec["dtype"]), f1=f1, f2=ids, Peptide=["PEP%dK" % i for i in ids],
+                               Proteins=["prot%d" % (i % 4) for i in scan]))
+        assert df["f0"].tolist() == f0
+        if c["encoding"] == "bool":
+            df["Label"] = df["Label"].astype(bool)
+        frames.append(df)
+        rid += n
+    return frames
+
+
+def int_collapses(c):
+    """does some file of the case hold different f0 integers with the same float32 value? (reported in the rule only)"""
+    return any(len(set(np.float32(v) for v in fr["f0"].tolist())) < len(set(fr["f0"].tolist())) for fr in build_int_frames(c))
+
+
+def feat_col(frame, f):
+    """the values of feature f for the oracle: integer-typed columns as int64 (exact), everything else as float64"""
+    col = frame[f].to_numpy()
+    return col.astype(np.int64) if col.dtype.kind in "iu" else frame[f].to_numpy(dtype=float)
+
+
+def same_values(scores, col):
+    """are the returned scores the values of this column? Integer-typed columns: exactly (the generated integers are below
+    2**52, so a float64 copy is exact as well); other columns: up to the text parser's last digit"""
+    s = np.asarray(scores).ravel()
+    if col.dtype.kind in "iu":
+        if len(s) != len(col):
+            return False
+        if s.dtype.kind in "iu":
+            return bool(np.array_equal(s.astype(np.int64), col))
+        return bool(np.array_equal(np.asarray(s, dtype=float), col.astype(np.float64)))
+    return bool(np.allclose(np.asarray(s, dtype=float), col, rtol=1e-12, atol=1e-12))
+
+
 def build_frames(c):
+    if c.get("int_feat"):
+        return build_int_frames(c)
     if c.get("layout"):
         return build_fold_frames(c)
     if c.get("blocks"):
@@ -290,6 +382,25 @@ def fold_structure(c, frames, d):
 FOLD_BEST = []      # per fold the largest independent count of the last run_brew_case that got as far as the comparison
 
 
+INT_SUFFIX = "-integer-feature"
+KEEP_ID = ("non-finite-scores-returned",) + EXPECTED
+
+
+def fold_best_table(c, frames, tgts, d):
+    """{(fold, feature, desc): targets accepted at train_fdr on the fold's training rows}, [largest count per fold];
+    integer-typed features are counted with exact integer comparisons"""
+    split = fold_structure(c, frames, d)
+    table = {}
+    for i in range(c["folds"]):
+        keep = [np.setdiff1d(np.arange(len(fr)), sp[i]) for fr, sp in zip(frames, split)]
+        t_tr = np.concatenate([t[k] for t, k in zip(tgts, keep)])
+        for f in ([c["direction"]] if c.get("direction") else FEATS):
+            col = np.concatenate([feat_col(fr, f)[k] for fr, k in zip(frames, keep)])
+            for dsc in (True, False):
+                table[(i, f, dsc)] = n_accepted(col, t_tr, c["train_fdr"], dsc)
+    return table, [max(v for (j, f, dsc), v in table.items() if j == i) for i in range(c["folds"])]
+
+
 def run_brew_case(c, d, want_result=False):
     import mokapot
     from mokapot.model import Model
@@ -307,6 +418,13 @@ def run_brew_case(c, d, want_result=False):
         if isinstance(e, RuntimeError) and ("Failed to calibrate scores" in str(e) or "No PSMs accepted at train_fdr" in str(e)
                                             or "No PSMs found below" in str(e)):
             res = ("loud", msg, [])
+            if c.get("int_feat") and "Failed to calibrate" not in str(e):
+                # integer-feature cases: a refusal for want of accepted PSMs is only a loud failure when it is true
+                tgts = [is_target_col(fr["Label"]) for fr in frames]
+                least = min(fold_best_table(c, frames, tgts, d)[1])
+                if least > 0:
+                    res = ("bad", msg, [(("direction" if c.get("direction") else "auto") + "-refused-though-feature-accepts" + INT_SUFFIX, "%s, but on every fold's training "
+                                         "rows some feature accepts targets at %g (at least %d)" % (msg, c["train_fdr"], least))])
         elif isinstance(e, ValueError) and ("No decoy PSMs were" in str(e) or "No target PSMs were" in str(e)):
             res = ("loud", msg, [])         # a training set without decoys / targets is refused by design
         else:
@@ -331,18 +449,10 @@ def run_brew_case(c, d, want_result=False):
                     "of falling back to the best feature" % (nonfinite, sum(len(s) for s in flat), c["est"], list(descs))))
         return ("bad", "", bad) + ((None,) if want_result else ())
     # the best single feature during training: per fold, accepted targets at train_fdr on the training rows
-    split = fold_structure(c, frames, d)
-    table = {}
-    for i in range(c["folds"]):
-        keep = [np.setdiff1d(np.arange(len(fr)), sp[i]) for fr, sp in zip(frames, split)]
-        t_tr = np.concatenate([t[k] for t, k in zip(tgts, keep)])
-        for f in ([c["direction"]] if c.get("direction") else FEATS):
-            col = np.concatenate([fr[f].to_numpy(dtype=float)[k] for fr, k in zip(frames, keep)])
-            for dsc in (True, False):
-                table[(i, f, dsc)] = n_accepted(col, t_tr, c["train_fdr"], dsc)
+    table, fold_best = fold_best_table(c, frames, tgts, d)
     B = max(table.values())
     best_pairs = set((f, dsc) for (i, f, dsc), v in table.items() if v == B)
-    FOLD_BEST[:] = [max(v for (j, f, dsc), v in table.items() if j == i) for i in range(c["folds"])]
+    FOLD_BEST[:] = fold_best
     # the count each fold's model recorded for its starting feature (brew compares the largest of them with what the
     # learned scores accept): it has to be the independently counted number for the feature and direction it names
     who = "direction" if c.get("direction") else "auto"
@@ -362,8 +472,7 @@ def run_brew_case(c, d, want_result=False):
                         "targets, the best candidate accepts %d" % (i, bf, dsc, int(fp),
                                                                    max(v for (j, f, d2), v in table.items() if j == i))))
     # (a) fallback: every file's scores are the column of one feature (text files: up to the parser's last digit)
-    fb = [f for f in FEATS if all(np.allclose(s, fr[f].to_numpy(dtype=float), rtol=1e-12, atol=1e-12)
-                                  for s, fr in zip(flat, frames))]
+    fb = [f for f in FEATS if all(same_values(s, feat_col(fr, f)) for s, fr in zip(scores, frames))]
     kind = "model"
     if fb:
         kind = "fallback"
@@ -378,6 +487,8 @@ def run_brew_case(c, d, want_result=False):
             bad.append(("worse-than-best-feature-no-fallback", "returned scores accept %d targets at %g, the best feature "
                         "accepted %d on a training fold at %g (largest count per fold: %s), and the scores are not a feature "
                         "column" % (A, c["test_fdr"], B, c["train_fdr"], list(FOLD_BEST))))
+    if c.get("int_feat"):       # the class of input goes into the case id (known class-independent findings keep theirs)
+        bad = [(cid if cid in KEEP_ID else cid + INT_SUFFIX, what) for cid, what in bad]
     res = ("bad" if bad else kind, "", bad)
     return res + (((dss, frames, scores, descs),) if want_result else ())
 
@@ -416,6 +527,47 @@ def gen_brew_cases(tier, seed):
     cases += gen_outlier_brew_cases(tier, seed)
     cases += gen_eval_fdr_brew_cases(tier, seed)
     cases += gen_fold_layout_brew_cases(tier, seed)
+    cases += gen_int_feature_brew_cases(tier, seed)
+    return cases
+
+
+N_INT_FEATURE = {"quick": 32, "thorough": 480}
+INT_MAGNITUDES = [("far", 0.5), ("small", None), ("far", 4.0), ("edge", None), ("far", 32.0), ("far", 0.5)]
+
+
+def int_feature_spec(k, rng):
+    """dtype int64 / int32 / uint32 / uint64 in turn; magnitude class in turn (per block of four): 'far' = base 2**30 (32-bit)
+    or 2**33..2**48 (64-bit) with a span of 0.5 / 4 / 32 float32 steps, 'edge' = base 2**24..2**26 with neighbouring
+    integers, 'small' = 0..4n"""
+    dtype = ["int64", "int32", "uint32", "uint64"][k % 4]
+    mag, mult = INT_MAGNITUDES[(k // 4) % len(INT_MAGNITUDES)]
+    top = INT_DTYPES[dtype]
+    if mag == "small":
+        log2 = None
+    elif mag == "edge":
+        log2, mult = int(rng.integers(24, 27)), 0.0
+    else:
+        log2 = int(rng.integers(29, top + 1)) if top < 32 else int(rng.integers(33, top + 1))
+    return dict(dtype=dtype, log2=log2, mult=mult, negate=bool(dtype.startswith("int") and rng.random() < 0.5))
+
+
+def gen_int_feature_brew_cases(tier, seed):
+    """The best single feature is an integer-typed column (build_int_frames); own random stream. Estimators that cannot
+    learn, invert or memorise (the fallback has to be f0, its exact values, in its good direction) and that reproduce f0;
+    1 of 5 with Model(direction='f0')."""
+    rng = np.random.default_rng([seed, 7009])
+    cases = []
+    for k in range(N_INT_FEATURE[tier]):
+        c = dict(n_spec=[int(rng.integers(70, 130)) for _ in range(1 + (k // 8) % 2)], dup=1 + (k // 2) % 2,
+                 data_seed=int(rng.integers(0, 10 ** 6)), encoding=list(ENCODINGS)[k % 3], lower=bool((k // 2) % 2),
+                 fmt=["parquet", "tab"][int(rng.integers(0, 2))],
+                 est=["const-dec", "inverted-dec", "memo-proba", "good-dec", "const-proba", "good-proba"][int(rng.integers(0, 6))],
+                 train_fdr=float(rng.choice([0.125, 0.25])), test_fdr=float(rng.choice([0.125, 0.25])),
+                 max_iter=int(rng.integers(1, 3)), folds=int(rng.integers(2, 4)), rng=int(rng.integers(0, 10 ** 6)),
+                 int_feat=int_feature_spec(k, rng))
+        if k % 5 == 4:
+            c["direction"] = "f0"
+        cases.append(c)
     return cases
 
 
@@ -581,12 +733,20 @@ def check_fallback(tier, seed):
                "memorising / reproducing estimators, 1 of 3 of the f0-weak cases with Model(direction='f0'); graded = 90%% good "
                "targets in one test fold and 10-30%% in the others with an estimator that passes training and pushes 5-8 of 16 "
                "residue classes of held-out rows to the bottom; the fold that cannot see the good rows is the LAST fold in "
-               "every second case, else an earlier one. In every returned run each fold "
+               "every second case, else an earlier one; + %d configurations (own stream of seed %d) whose best single feature f0 "
+               "is an INTEGER-typed column (int64 / int32 / uint32 / uint64 in turn; 1-2 files of 70-129 spectra x 1-2 PSMs, 50%% "
+               "targets of which 65%% good, f0 strictly monotone in a latent N(4,1)/N(0,1) score, a weak float feature f1 that "
+               "stands out for a quarter of the good targets): magnitudes small (0..4n), 2**24..2**26 with neighbouring integers, "
+               "and 2**29..2**31 (32-bit) / 2**33..2**48 (64-bit) with all values inside 0.5, 4 or 32 float32 steps, so that "
+               "float32 cannot separate them; lower-is-better by mirroring or (signed) negating; 6 estimators, folds 2-3, "
+               "train/test fdr in {0.125,0.25}, both formats, 1 of 5 with Model(direction='f0'); their counts use exact integer "
+               "comparisons, a fallback must return exactly the integers, and a refusal for want of accepted PSMs is only "
+               "tolerated when no feature accepts on some fold's training rows. In every returned run each fold "
                "model's feat_pass/best_feat/desc is compared with the independent count on that fold's training rows, and the "
                "returned scores are counted independently at test_fdr"
                % ("1" if tier == "quick" else "12", 40 if tier == "quick" else 600, seed, N_OUTLIER_BREW[tier], seed,
                   N_EVAL_FDR_BREW[tier][0], N_EVAL_FDR_BREW[tier][1], seed, N_FOLD_LAYOUT[tier][0], N_FOLD_LAYOUT[tier][1],
-                  seed, "2-3" if tier == "quick" else "2-4"),
+                  seed, "2-3" if tier == "quick" else "2-4", N_INT_FEATURE[tier], seed),
                "non-trivial = brew returned and either fell back to a feature column or returned model scores that were "
                "compared with the best feature's count on the training folds; loud failures (documented RuntimeErrors) and "
                "override=True runs are evaluations only")
@@ -602,6 +762,9 @@ def check_fallback(tier, seed):
                 disagree[1] += FOLD_BEST[-1] < max(FOLD_BEST)
                 disagree[2] += FOLD_BEST[0] < max(FOLD_BEST)
     ck.rule += "; outcomes: %s" % json.dumps(kinds, sort_keys=True)
+    ints = [c for c in cases if c.get("int_feat")]
+    ck.rule += ("; integer-feature configurations: %d, of which %d hold f0 values that are no longer all distinct after "
+                "rounding to float32" % (len(ints), sum(int_collapses(c) for c in ints)))
     ck.rule += ("; compared runs in which the folds' best-feature counts differ: %d (the last fold is not the largest: %d, the "
                 "first is not: %d)" % tuple(disagree))
     report(ck, found)
@@ -774,7 +937,7 @@ def run_start_case(c):
     table = {}
     for f in ([c["direction"]] if c.get("direction") else FEATS):
         for dsc in (True, False):
-            q = qvalues(df[f].to_numpy(dtype=float), tgt, dsc)
+            q = qvalues(feat_col(df, f), tgt, dsc)
             lab = np.array([(1 if qq <= thr else 0) if t else -1 for qq, t in zip(q, tgt)])
             table[(f, dsc)] = (int((lab == 1).sum()), lab)
     B = max(v[0] for v in table.values())
@@ -860,6 +1023,8 @@ def run_start_case(c):
                   RecordingDec.log[0][1], RecordingDec.log[0][0])
     except Exception as e:  # noqa
         refused("Model.fit", e)
+    if c.get("int_feat"):       # the class of input goes into the case id
+        bad = [(cid + INT_SUFFIX, what) for cid, what in bad]
     counts = sorted(v[0] for v in table.values())
     f0 = [table[(f, d)][0] for (f, d) in table if f == "f0"]
     return dict(compared=B > 0 and counts[0] != counts[-1] and not (tgt.all() or not tgt.any()), both_ways=len(f0) == 2 and min(f0) > 0 and f0[0] != f0[1]), bad
@@ -901,7 +1066,19 @@ def gen_start_cases(tier, seed):
         if rng.random() < 0.15:
             c["p_target"] = 0.8
         cases.append(c)
+    rng = np.random.default_rng([seed, 7010])       # integer-typed best feature (build_int_frames); own stream
+    for k in range(N_START_INT[tier]):
+        c = dict(n_spec=[int(rng.integers(40, 100)) for _ in range(1 + (k // 8) % 2)], dup=1 + (k // 2) % 2,
+                 data_seed=int(rng.integers(0, 10 ** 6)), encoding=list(ENCODINGS)[k % 3], lower=bool((k // 2) % 2),
+                 train_fdr=float(rng.choice([0.125, 0.25, 0.5])), rng=int(rng.integers(0, 10 ** 6)),
+                 int_feat=int_feature_spec(k, rng))
+        if k % 5 == 4:
+            c["direction"] = "f0"
+        cases.append(c)
     return cases
+
+
+N_START_INT = {"quick": 30, "thorough": 360}
 
 
 def check_start(tier, seed):
@@ -915,7 +1092,10 @@ def check_start(tier, seed):
                "spectra x 1-3 PSMs concatenated, 60%% direction='f0', 15%% direction='f1'/'f2' (noise / row id), 70%% with "
                "1..ceil(1/fdr)+4 wrong-end outliers per table, 20%% equal scores inside a spectrum, 15%% target-rich; every "
                "case through two routes (the helper directly; Model.fit with one iteration, scaler as-is, an estimator that "
-               "records its first fit call)" % (reps, extra, seed),
+               "records its first fit call); + %d tables (own stream of seed %d) whose best feature f0 is an integer-typed "
+               "column as in brew_best_feature_net (int64/int32/uint32/uint64; small, 2**24..2**26 neighbouring, and up to "
+               "2**48 within 0.5-32 float32 steps; 40-99 spectra x 1-2 PSMs per table, train_fdr in {0.125,0.25,0.5}, 1 of 5 "
+               "with direction='f0'), counted with exact integer comparisons" % (reps, extra, seed, N_START_INT[tier], seed),
                "oracle: exact-fraction target-decoy q-values per candidate (feature, direction) on all rows; feat_pass must be "
                "the count of the (best_feat, desc) handed on, that count must be the largest among the candidates (ties: any), "
                "the starting labels / first fit call must have exactly the accepted targets positive and the other targets "
@@ -1119,5 +1299,10 @@ if __name__ == "__main__":
           "a fallback that was not needed (learned scores no worse at test_fdr, feature column returned anyway) is not counted "
           "as a violation: the statement only forbids returning worse model scores",
           "a documented RuntimeError of brew (calibration impossible, no PSM accepted at train_fdr) is a loud failure, "
-          "not a silent degradation",
+          "not a silent degradation; in the integer-feature cases 'no PSM accepted / found' is only taken as such when it is "
+          "true (some fold's training rows on which no candidate feature accepts a target at train_fdr)",
+          "integer-typed feature columns: 'accepts' is meant for the integers as stored (two different integers are never "
+          "tied), so the oracle compares them as int64; magnitudes are kept below 2**49 (exact in float64 as well: only a "
+          "float32 or coarser detour changes a count); integer scores handed on to assign_confidence are not examined here "
+          "(q-value arithmetic: C01)",
           "PEP columns are not examined; peps_algorithm left at its default (qvality)"])
